@@ -11,7 +11,7 @@ from vlib.build import build
 from vlib.pkgread import pkg_nets, check_package
 
 SIGN = ["s", "k", "m0:kk", "m0:l0:m", "lx:m", "m0:g", "m1:kk", "x0:m0:kk"]      # candidate designer signal names
-INSTN = ["lx", "m0:l0", "m0:l0:r0", "m1", "m0:lq", "q"]                           # candidate designer instance names
+INSTN = ["lx", "m0:l0", "m0:l0:r0", "m1:rm", "m0:lq", "q"]                           # candidate designer instance names
 
 
 def design(w, share, ext, deep, sn, inn, imid):
@@ -27,14 +27,16 @@ def design(w, share, ext, deep, sn, inn, imid):
     cell0 = Mod("Cell0", sigs=[("p", 1), ("q", w)], insts=[
         Inst("ra", Prim("R", dict(r=3)), {"p": Sig("p"), "n": Sig("p")}),
         Inst("ca", leaf_ext, {"a": Sig("q"), "b": Sig("p")})])
-    mid = Mod("Mid", ports=[("a", w), ("g", 1)], sigs=[("kk", w), ("h", 1)], insts=[
+    # (Mid's port `m` carries the name of Leaf's INTERNAL net, its port `p` that of Cell0's: scopes must not leak downwards)
+    mid = Mod("Mid", ports=[("a", w), ("g", 1), ("m", 1), ("p", 1)], sigs=[("kk", w), ("h", 1)], insts=[
+        Inst("rm", Prim("R", dict(r=5)), {"p": Sig("m"), "n": Sig("p")}),
         Inst("z", cell0, {}),
         Inst("l0", leaf, {"a": Sig("a"), "g": Sig("g")}),
         Inst(INSTN[imid] if imid >= 0 else "l1", leaf2, {"a": Sig("kk"), "g": Sig("h")}),
         Inst("l2", leaf, {"a": Sig("kk"), "g": Sig("g")})])
     top = Mod("Top", ports=[("t", 1), ("pa", w)], sigs=[(SIGN[sn], w), ("g2", 1)], insts=[
-        Inst("m0", mid, {"a": Sig(SIGN[sn]), "g": Sig("t")}),
-        Inst("m1", mid, {"a": Sig("pa"), "g": Sig("g2")}),
+        Inst("m0", mid, {"a": Sig(SIGN[sn]), "g": Sig("t"), "m": Sig("g2"), "p": Sig("t")}),
+        Inst("m1", mid, {"a": Sig("pa"), "g": Sig("g2"), "m": Sig("t"), "p": Sig("g2")}),
         Inst(INSTN[inn], leaf2, {"a": Sig(SIGN[sn]), "g": Sig("g2")}),
         Inst("z0", cell0, {}), Inst("z1", cell0, {})])
     if deep:
